@@ -39,8 +39,8 @@ type raceOptTarget struct {
 }
 
 var (
-	raceOptA  = gotype.Unfolders(func(to *raceA, s string) error { to.S = "A:" + s; return nil })
-	raceOptB  = gotype.Unfolders(func(to *raceB, s string) error { to.S = "B:" + s; return nil })
+	raceOptA   = gotype.Unfolders(func(to *raceA, s string) error { to.S = "A:" + s; return nil })
+	raceOptB   = gotype.Unfolders(func(to *raceB, s string) error { to.S = "B:" + s; return nil })
 	raceFoldO  = gotype.Folders(func(v *raceA, vis structform.ExtVisitor) error { return vis.OnString("F:" + v.S) })
 	raceFoldO2 = gotype.Folders(func(v *raceB, vis structform.ExtVisitor) error { return vis.OnString("G:" + v.S) })
 )
@@ -96,6 +96,96 @@ func raceOptions(w int) []string {
 			}
 		}
 		out = append(out, "keycache:"+res)
+	}
+	// stateful and processing user unfolders behind shared option values; the processed values sit at
+	// different depths from goroutine to goroutine, several values per document
+	{
+		docP := map[string]interface{}{"name": fmt.Sprintf("w%d", w), "quota": w + 1}
+		var res string
+		func() {
+			defer func() {
+				if r := recover(); r != nil {
+					res = fmt.Sprint("PANIC ", r)
+				}
+			}()
+			var err error
+			var u *gotype.Unfolder
+			switch w % 3 {
+			case 0:
+				var t uuP
+				if u, err = gotype.NewUnfolder(&t, uuOptP, uuOptO, uuOptI, uuOptKV); err == nil {
+					err = gotype.Fold(docP, u)
+				}
+				res = fmt.Sprintf("%v %+v", err, t)
+			case 1:
+				var t []uuOuter
+				if u, err = gotype.NewUnfolder(&t, uuOptP, uuOptO, uuOptI, uuOptKV); err == nil {
+					err = gotype.Fold([]map[string]interface{}{{"tag": "a", "in": docP}, {"tag": "b", "in": docP}, {"tag": "c", "in": docP}}, u)
+				}
+				res = fmt.Sprintf("%v %+v", err, t)
+			default:
+				var t struct {
+					L []struct{ P *uuP }
+					I []uuI
+					K uuKV
+				}
+				if u, err = gotype.NewUnfolder(&t, uuOptP, uuOptO, uuOptI, uuOptKV); err == nil {
+					err = gotype.Fold(map[string]interface{}{
+						"l": []map[string]interface{}{{"p": docP}, {"p": docP}},
+						"i": []int{w, -w, 3},
+						"k": map[string]int{"only": w},
+					}, u)
+				}
+				res = fmt.Sprintf("%v", err)
+				for _, e := range t.L {
+					if e.P != nil {
+						res += fmt.Sprintf(" %+v", *e.P)
+					} else {
+						res += " nil"
+					}
+				}
+				res += fmt.Sprintf(" %+v %+v", t.I, t.K)
+			}
+		}()
+		out = append(out, "userproc:"+res)
+	}
+	// recycled Unfolders (Reset, then SetTarget) building containers nested in interface{} positions
+	{
+		var res string
+		func() {
+			defer func() {
+				if r := recover(); r != nil {
+					res = fmt.Sprint("PANIC ", r)
+				}
+			}()
+			var first, v interface{}
+			u, err := gotype.NewUnfolder(&first)
+			if err != nil {
+				res = "SETUPERR"
+				return
+			}
+			for round := 0; round < 3; round++ {
+				u.Reset()
+				v = nil
+				if err := u.SetTarget(&v); err != nil {
+					res = "SETUPERR"
+					return
+				}
+				doc := fmt.Sprintf(`{"w":[%d,[%d,{"x":[%d],"y":{"z":"s%d"}}],{"a":%d}],"m":{"k":%d}}`, w, w+1, w+2, w, w+3, w+4+round)
+				if err := json.Parse([]byte(doc), u); err != nil {
+					res = "ERR"
+					return
+				}
+			}
+			var buf bytes.Buffer
+			if err := gotype.Fold(v, json.NewVisitor(&buf)); err != nil {
+				res = "FOLDERR"
+				return
+			}
+			m := v.(map[string]interface{})
+			res = fmt.Sprintf("%v %v", m["w"], m["m"])
+		}()
+		out = append(out, "recycled:"+res)
 	}
 	// JSON encoder settings differ from goroutine to goroutine
 	for _, html := range []bool{w%2 == 0, w%3 == 0} {
